@@ -68,6 +68,7 @@ structure Entry where
   subFn : Bool          -- `SubFunctionResponse`: byte 1 must be ≤ 0x7F
   minLen : Nat
   maxLen : Option Nat
+deriving DecidableEq
 
 /-- the response side of gallia's registry (checked against the regenerated table) -/
 def registry : List Entry := [
